@@ -1,6 +1,7 @@
 package sims
 
 import (
+	"context"
 	"crypto"
 	"crypto/ecdsa"
 	"crypto/rand"
@@ -10,6 +11,8 @@ import (
 	"sync"
 	"time"
 
+	"github.com/notaryproject/notation-core-go/revocation"
+	"github.com/notaryproject/notation-core-go/revocation/result"
 	"github.com/notaryproject/notation-core-go/signature"
 	_ "github.com/notaryproject/notation-core-go/signature/cose"
 	_ "github.com/notaryproject/notation-core-go/signature/jws"
@@ -135,4 +138,30 @@ func BaseRequest(mt string, signer signature.Signer, scheme signature.SigningSch
 		SigningTime:   SignTime,
 		SigningScheme: scheme,
 	}
+}
+
+// StubValidator is a revocation.Validator double returning a chosen vector.
+type StubValidator struct {
+	Results []result.Result
+	Err     error
+	NilSlot int // 1-based index of a nil entry (0 = none)
+	mu      sync.Mutex
+	Calls   int
+	Chains  [][]*x509.Certificate
+}
+
+// ValidateContext implements revocation.Validator.
+func (v *StubValidator) ValidateContext(ctx context.Context, opts revocation.ValidateContextOptions) ([]*result.CertRevocationResult, error) {
+	v.mu.Lock()
+	v.Calls++
+	v.Chains = append(v.Chains, opts.CertChain)
+	v.mu.Unlock()
+	if v.Err != nil {
+		return nil, v.Err
+	}
+	out := make([]*result.CertRevocationResult, len(v.Results))
+	for i, r := range v.Results {
+		out[i] = &result.CertRevocationResult{Result: r, ServerResults: []*result.ServerResult{{Result: r}}}
+	}
+	return out, nil
 }
